@@ -35,7 +35,9 @@ use yui_verif_rt as rt;
 
 pub mod prelude {
     pub use crate::iter::{
-        FromParallelIterator, IntoParallelIterator, IntoParallelRefIterator, ParallelIterator,
+        FromParallelIterator, IndexedParallelIterator, IntoParallelIterator, IntoParallelRefIterator,
+        IntoParallelRefMutIterator, ParallelBridge, ParallelIterator, ParallelIteratorRefExt, ParallelSlice,
+        ParallelSliceMut,
     };
 }
 
@@ -308,6 +310,69 @@ fn exec(n: usize, job: &(dyn Fn(usize) + Sync)) {
     }
 }
 
+pub mod slice {
+    pub use crate::iter::{ParallelSlice, ParallelSliceMut};
+}
+
+/// `rayon::join`: both closures become items of one two-item parallel call
+pub fn join<A, B, RA, RB>(a: A, b: B) -> (RA, RB)
+where
+    A: FnOnce() -> RA + Send,
+    B: FnOnce() -> RB + Send,
+    RA: Send,
+    RB: Send,
+{
+    let fa = StdMutex::new(Some(a));
+    let fb = StdMutex::new(Some(b));
+    let ra: StdMutex<Option<RA>> = StdMutex::new(None);
+    let rb: StdMutex<Option<RB>> = StdMutex::new(None);
+    exec(2, &|i| {
+        if i == 0 {
+            let f = fa.lock().unwrap().take().unwrap();
+            let r = f();
+            *ra.lock().unwrap() = Some(r);
+        } else {
+            let f = fb.lock().unwrap().take().unwrap();
+            let r = f();
+            *rb.lock().unwrap() = Some(r);
+        }
+    });
+    (ra.into_inner().unwrap().unwrap(), rb.into_inner().unwrap().unwrap())
+}
+
+pub fn current_num_threads() -> usize {
+    rt::par_cfg().map(|c| c.workers.clamp(1, 16)).unwrap_or(1)
+}
+
+pub fn current_thread_index() -> Option<usize> {
+    let me = cur_task()?;
+    POOL.with(|p| p.borrow().as_ref().and_then(|p| p.workers.iter().position(|&w| w == me)))
+}
+
+/// The simulated pool is configured by the run, not by the program.
+#[derive(Default, Debug)]
+pub struct ThreadPoolBuilder;
+#[derive(Debug)]
+pub struct ThreadPoolBuildError;
+impl std::fmt::Display for ThreadPoolBuildError {
+    fn fmt(&self, f: &mut std::fmt::Formatter<'_>) -> std::fmt::Result { f.write_str("thread pool build error") }
+}
+impl std::error::Error for ThreadPoolBuildError {}
+#[derive(Debug)]
+pub struct ThreadPool;
+impl ThreadPoolBuilder {
+    pub fn new() -> Self { ThreadPoolBuilder }
+    pub fn num_threads(self, _n: usize) -> Self { self }
+    pub fn stack_size(self, _n: usize) -> Self { self }
+    pub fn thread_name<F: FnMut(usize) -> String>(self, _f: F) -> Self { self }
+    pub fn build_global(self) -> Result<(), ThreadPoolBuildError> { Ok(()) }
+    pub fn build(self) -> Result<ThreadPool, ThreadPoolBuildError> { Ok(ThreadPool) }
+}
+impl ThreadPool {
+    pub fn install<R: Send, F: FnOnce() -> R + Send>(&self, f: F) -> R { f() }
+    pub fn current_num_threads(&self) -> usize { current_num_threads() }
+}
+
 pub mod iter {
     use super::*;
 
@@ -361,7 +426,189 @@ pub mod iter {
             let v: Vec<Self::Item> = self.collect();
             v.len()
         }
+
+        fn filter_map<F, R>(self, f: F) -> FilterMap<Self, F>
+        where
+            F: Fn(Self::Item) -> Option<R> + Sync + Send,
+            R: Send,
+        {
+            FilterMap { base: self, f }
+        }
+
+        fn inspect<F>(self, f: F) -> Inspect<Self, F>
+        where
+            F: Fn(&Self::Item) + Sync + Send,
+        {
+            Inspect { base: self, f }
+        }
+
+        fn flat_map_iter<F, I>(self, f: F) -> FlatMapIter<Self, F>
+        where
+            F: Fn(Self::Item) -> I + Sync + Send,
+            I: IntoIterator,
+            I::Item: Send,
+        {
+            FlatMapIter { base: self, f }
+        }
+
+        fn map_with<T, F, R>(self, init: T, f: F) -> MapWith<Self, T, F>
+        where
+            T: Clone + Send + Sync,
+            F: Fn(&mut T, Self::Item) -> R + Sync + Send,
+            R: Send,
+        {
+            MapWith { base: self, init, f }
+        }
+
+        fn for_each_with<T, F>(self, init: T, f: F)
+        where
+            T: Clone + Send + Sync,
+            F: Fn(&mut T, Self::Item) + Sync + Send,
+        {
+            let n = self.base_len();
+            exec(n, &|i| {
+                let mut t = init.clone();
+                self.feed(i, &mut |x| f(&mut t, x))
+            });
+        }
+
+        /// enumerate / zip / chunks are only meaningful on pipelines that yield exactly one item
+        /// per index (rayon's IndexedParallelIterator); this shim does not separate the two traits
+        fn enumerate(self) -> Enumerate<Self> {
+            Enumerate { base: self }
+        }
+
+        fn zip<Z: IntoParallelIterator>(self, other: Z) -> Zip<Self, Z::Iter> {
+            Zip { a: self, b: other.into_par_iter() }
+        }
+
+        fn chunks(self, size: usize) -> Chunks<Self> {
+            assert!(size > 0);
+            Chunks { base: self, size }
+        }
+
+        fn with_min_len(self, _n: usize) -> Self { self }
+        fn with_max_len(self, _n: usize) -> Self { self }
+
+        fn fold<T, ID, F>(self, identity: ID, op: F) -> Fold<Self, ID, F>
+        where
+            T: Send,
+            ID: Fn() -> T + Sync + Send,
+            F: Fn(T, Self::Item) -> T + Sync + Send,
+        {
+            Fold { base: self, identity, op }
+        }
+
+        fn reduce<ID, OP>(self, identity: ID, op: OP) -> Self::Item
+        where
+            ID: Fn() -> Self::Item + Sync + Send,
+            OP: Fn(Self::Item, Self::Item) -> Self::Item + Sync + Send,
+        {
+            let items: Vec<Self::Item> = self.collect();
+            items.into_iter().fold(identity(), |a, b| op(a, b))
+        }
+
+        fn reduce_with<OP>(self, op: OP) -> Option<Self::Item>
+        where
+            OP: Fn(Self::Item, Self::Item) -> Self::Item + Sync + Send,
+        {
+            let items: Vec<Self::Item> = self.collect();
+            items.into_iter().reduce(|a, b| op(a, b))
+        }
+
+        fn sum<S>(self) -> S
+        where
+            S: Send + std::iter::Sum<Self::Item>,
+        {
+            let items: Vec<Self::Item> = self.collect();
+            items.into_iter().sum()
+        }
+
+        fn product<P>(self) -> P
+        where
+            P: Send + std::iter::Product<Self::Item>,
+        {
+            let items: Vec<Self::Item> = self.collect();
+            items.into_iter().product()
+        }
+
+        fn min(self) -> Option<Self::Item> where Self::Item: Ord {
+            let items: Vec<Self::Item> = self.collect();
+            items.into_iter().min()
+        }
+        fn max(self) -> Option<Self::Item> where Self::Item: Ord {
+            let items: Vec<Self::Item> = self.collect();
+            items.into_iter().max()
+        }
+        fn min_by_key<K: Ord + Send, F: Fn(&Self::Item) -> K + Sync + Send>(self, f: F) -> Option<Self::Item> {
+            let items: Vec<Self::Item> = self.collect();
+            items.into_iter().min_by_key(|x| f(x))
+        }
+        fn max_by_key<K: Ord + Send, F: Fn(&Self::Item) -> K + Sync + Send>(self, f: F) -> Option<Self::Item> {
+            let items: Vec<Self::Item> = self.collect();
+            items.into_iter().max_by_key(|x| f(x))
+        }
+        fn min_by<F: Fn(&Self::Item, &Self::Item) -> std::cmp::Ordering + Sync + Send>(self, f: F) -> Option<Self::Item> {
+            let items: Vec<Self::Item> = self.collect();
+            items.into_iter().min_by(|a, b| f(a, b))
+        }
+        fn max_by<F: Fn(&Self::Item, &Self::Item) -> std::cmp::Ordering + Sync + Send>(self, f: F) -> Option<Self::Item> {
+            let items: Vec<Self::Item> = self.collect();
+            items.into_iter().max_by(|a, b| f(a, b))
+        }
+        fn any<P: Fn(Self::Item) -> bool + Sync + Send>(self, p: P) -> bool {
+            let items: Vec<bool> = self.map(p).collect();
+            items.into_iter().any(|b| b)
+        }
+        fn all<P: Fn(Self::Item) -> bool + Sync + Send>(self, p: P) -> bool {
+            let items: Vec<bool> = self.map(p).collect();
+            items.into_iter().all(|b| b)
+        }
+        fn find_any<P: Fn(&Self::Item) -> bool + Sync + Send>(self, p: P) -> Option<Self::Item> {
+            // "any" match: the shim returns one chosen by the run's PRNG among the matches
+            let mut items: Vec<Self::Item> = self.filter(p).collect();
+            if items.is_empty() { None } else { let k = rt::shim_below(items.len() as u64) as usize; Some(items.swap_remove(k)) }
+        }
+        fn find_first<P: Fn(&Self::Item) -> bool + Sync + Send>(self, p: P) -> Option<Self::Item> {
+            let items: Vec<Self::Item> = self.filter(p).collect();
+            items.into_iter().next()
+        }
+        fn find_last<P: Fn(&Self::Item) -> bool + Sync + Send>(self, p: P) -> Option<Self::Item> {
+            let items: Vec<Self::Item> = self.filter(p).collect();
+            items.into_iter().last()
+        }
+        fn try_for_each<F, E>(self, f: F) -> Result<(), E>
+        where
+            F: Fn(Self::Item) -> Result<(), E> + Sync + Send,
+            E: Send,
+        {
+            let items: Vec<Result<(), E>> = self.map(f).collect();
+            items.into_iter().collect()
+        }
+        fn unzip<A, B, FA, FB>(self) -> (FA, FB)
+        where
+            Self: ParallelIterator<Item = (A, B)>,
+            A: Send, B: Send,
+            FA: Default + Extend<A>, FB: Default + Extend<B>,
+        {
+            let items: Vec<(A, B)> = self.collect();
+            items.into_iter().unzip()
+        }
     }
+
+    /// `cloned` / `copied` for pipelines over references
+    pub trait ParallelIteratorRefExt<'a, T: 'a + Send + Sync>: ParallelIterator<Item = &'a T> {
+        fn cloned(self) -> Map<Self, fn(&'a T) -> T> where T: Clone {
+            self.map(<T as Clone>::clone as fn(&'a T) -> T)
+        }
+        fn copied(self) -> Map<Self, fn(&'a T) -> T> where T: Copy {
+            fn cp<T: Copy>(x: &T) -> T { *x }
+            self.map(cp::<T> as fn(&'a T) -> T)
+        }
+    }
+    impl<'a, T: 'a + Send + Sync, P: ParallelIterator<Item = &'a T>> ParallelIteratorRefExt<'a, T> for P {}
+
+    pub use self::ParallelIterator as IndexedParallelIterator;
 
     /// Runs the pipeline and returns the produced items grouped by base index (= in index order).
     fn run_ordered<P: ParallelIterator>(p: P) -> Vec<Vec<P::Item>> {
@@ -594,5 +841,199 @@ pub mod iter {
                 }
             })
         }
+    }
+
+    pub struct FilterMap<B, F> { base: B, f: F }
+    impl<B, F, R> ParallelIterator for FilterMap<B, F>
+    where B: ParallelIterator, F: Fn(B::Item) -> Option<R> + Sync + Send, R: Send {
+        type Item = R;
+        fn base_len(&self) -> usize { self.base.base_len() }
+        fn feed(&self, idx: usize, sink: &mut dyn FnMut(R)) {
+            self.base.feed(idx, &mut |x| if let Some(y) = (self.f)(x) { sink(y) })
+        }
+    }
+
+    pub struct Inspect<B, F> { base: B, f: F }
+    impl<B, F> ParallelIterator for Inspect<B, F>
+    where B: ParallelIterator, F: Fn(&B::Item) + Sync + Send {
+        type Item = B::Item;
+        fn base_len(&self) -> usize { self.base.base_len() }
+        fn feed(&self, idx: usize, sink: &mut dyn FnMut(B::Item)) {
+            self.base.feed(idx, &mut |x| { (self.f)(&x); sink(x) })
+        }
+    }
+
+    pub struct FlatMapIter<B, F> { base: B, f: F }
+    impl<B, F, I> ParallelIterator for FlatMapIter<B, F>
+    where B: ParallelIterator, F: Fn(B::Item) -> I + Sync + Send, I: IntoIterator, I::Item: Send {
+        type Item = I::Item;
+        fn base_len(&self) -> usize { self.base.base_len() }
+        fn feed(&self, idx: usize, sink: &mut dyn FnMut(I::Item)) {
+            self.base.feed(idx, &mut |x| for y in (self.f)(x) { sink(y) })
+        }
+    }
+
+    pub struct MapWith<B, T, F> { base: B, init: T, f: F }
+    impl<B, T, F, R> ParallelIterator for MapWith<B, T, F>
+    where B: ParallelIterator, T: Clone + Send + Sync, F: Fn(&mut T, B::Item) -> R + Sync + Send, R: Send {
+        type Item = R;
+        fn base_len(&self) -> usize { self.base.base_len() }
+        fn feed(&self, idx: usize, sink: &mut dyn FnMut(R)) {
+            let mut t = self.init.clone();
+            self.base.feed(idx, &mut |x| sink((self.f)(&mut t, x)))
+        }
+    }
+
+    pub struct Enumerate<B> { base: B }
+    impl<B: ParallelIterator> ParallelIterator for Enumerate<B> {
+        type Item = (usize, B::Item);
+        fn base_len(&self) -> usize { self.base.base_len() }
+        fn feed(&self, idx: usize, sink: &mut dyn FnMut((usize, B::Item))) {
+            self.base.feed(idx, &mut |x| sink((idx, x)))
+        }
+    }
+
+    pub struct Zip<A, B> { a: A, b: B }
+    impl<A: ParallelIterator, B: ParallelIterator> ParallelIterator for Zip<A, B> {
+        type Item = (A::Item, B::Item);
+        fn base_len(&self) -> usize { self.a.base_len().min(self.b.base_len()) }
+        fn feed(&self, idx: usize, sink: &mut dyn FnMut((A::Item, B::Item))) {
+            let mut x = None;
+            let mut y = None;
+            self.a.feed(idx, &mut |v| x = Some(v));
+            self.b.feed(idx, &mut |v| y = Some(v));
+            if let (Some(x), Some(y)) = (x, y) { sink((x, y)) }
+        }
+    }
+
+    pub struct Chunks<B> { base: B, size: usize }
+    impl<B: ParallelIterator> ParallelIterator for Chunks<B> {
+        type Item = Vec<B::Item>;
+        fn base_len(&self) -> usize { (self.base.base_len() + self.size - 1) / self.size }
+        fn feed(&self, idx: usize, sink: &mut dyn FnMut(Vec<B::Item>)) {
+            let mut v = vec![];
+            for i in idx * self.size..((idx + 1) * self.size).min(self.base.base_len()) {
+                self.base.feed(i, &mut |x| v.push(x));
+            }
+            sink(v)
+        }
+    }
+
+    pub struct Fold<B, ID, F> { base: B, identity: ID, op: F }
+    impl<B, T, ID, F> ParallelIterator for Fold<B, ID, F>
+    where B: ParallelIterator, T: Send, ID: Fn() -> T + Sync + Send, F: Fn(T, B::Item) -> T + Sync + Send {
+        type Item = T;
+        fn base_len(&self) -> usize { self.base.base_len() }
+        fn feed(&self, idx: usize, sink: &mut dyn FnMut(T)) {
+            // rayon promises nothing about how many accumulators exist: one per base item is legal
+            let mut acc = Some((self.identity)());
+            self.base.feed(idx, &mut |x| acc = Some((self.op)(acc.take().unwrap(), x)));
+            sink(acc.unwrap())
+        }
+    }
+
+    // --- mutable slices, chunked slices ---------------------------------------------------
+
+    pub struct SliceIterMut<'a, T> { ptr: *mut T, len: usize, _m: std::marker::PhantomData<&'a mut T> }
+    // every index is handed to exactly one job, as with rayon's par_iter_mut
+    unsafe impl<'a, T: Send> Sync for SliceIterMut<'a, T> {}
+    unsafe impl<'a, T: Send> Send for SliceIterMut<'a, T> {}
+    impl<'a, T: Send + 'a> ParallelIterator for SliceIterMut<'a, T> {
+        type Item = &'a mut T;
+        fn base_len(&self) -> usize { self.len }
+        fn feed(&self, idx: usize, sink: &mut dyn FnMut(&'a mut T)) {
+            assert!(idx < self.len);
+            sink(unsafe { &mut *self.ptr.add(idx) })
+        }
+    }
+    impl<'a, T: Send + 'a> IntoParallelIterator for &'a mut [T] {
+        type Iter = SliceIterMut<'a, T>;
+        type Item = &'a mut T;
+        fn into_par_iter(self) -> SliceIterMut<'a, T> { SliceIterMut { ptr: self.as_mut_ptr(), len: self.len(), _m: std::marker::PhantomData } }
+    }
+    impl<'a, T: Send + 'a> IntoParallelIterator for &'a mut Vec<T> {
+        type Iter = SliceIterMut<'a, T>;
+        type Item = &'a mut T;
+        fn into_par_iter(self) -> SliceIterMut<'a, T> { self.as_mut_slice().into_par_iter() }
+    }
+
+    pub trait IntoParallelRefMutIterator<'a> {
+        type Iter: ParallelIterator<Item = Self::Item>;
+        type Item: Send + 'a;
+        fn par_iter_mut(&'a mut self) -> Self::Iter;
+    }
+    impl<'a, I: 'a + ?Sized> IntoParallelRefMutIterator<'a> for I
+    where &'a mut I: IntoParallelIterator {
+        type Iter = <&'a mut I as IntoParallelIterator>::Iter;
+        type Item = <&'a mut I as IntoParallelIterator>::Item;
+        fn par_iter_mut(&'a mut self) -> Self::Iter { self.into_par_iter() }
+    }
+
+    pub struct ChunksIter<'a, T> { items: &'a [T], size: usize }
+    impl<'a, T: Sync + 'a> ParallelIterator for ChunksIter<'a, T> {
+        type Item = &'a [T];
+        fn base_len(&self) -> usize { (self.items.len() + self.size - 1) / self.size }
+        fn feed(&self, idx: usize, sink: &mut dyn FnMut(&'a [T])) {
+            let lo = idx * self.size;
+            sink(&self.items[lo..(lo + self.size).min(self.items.len())])
+        }
+    }
+
+    pub trait ParallelSlice<T: Sync> {
+        fn as_parallel_slice(&self) -> &[T];
+        fn par_chunks(&self, size: usize) -> ChunksIter<'_, T> {
+            assert!(size > 0, "chunk size must be non-zero");
+            ChunksIter { items: self.as_parallel_slice(), size }
+        }
+        fn par_chunks_exact(&self, size: usize) -> ChunksIter<'_, T> {
+            assert!(size > 0, "chunk size must be non-zero");
+            let s = self.as_parallel_slice();
+            ChunksIter { items: &s[..s.len() - s.len() % size], size }
+        }
+    }
+    impl<T: Sync> ParallelSlice<T> for [T] {
+        fn as_parallel_slice(&self) -> &[T] { self }
+    }
+
+    pub trait ParallelSliceMut<T: Send> {
+        fn as_parallel_slice_mut(&mut self) -> &mut [T];
+        fn par_sort(&mut self) where T: Ord { self.as_parallel_slice_mut().sort() }
+        fn par_sort_unstable(&mut self) where T: Ord { self.as_parallel_slice_mut().sort_unstable() }
+        fn par_sort_by<F: Fn(&T, &T) -> std::cmp::Ordering + Sync>(&mut self, f: F) { self.as_parallel_slice_mut().sort_by(|a, b| f(a, b)) }
+        fn par_sort_unstable_by<F: Fn(&T, &T) -> std::cmp::Ordering + Sync>(&mut self, f: F) { self.as_parallel_slice_mut().sort_unstable_by(|a, b| f(a, b)) }
+        fn par_sort_by_key<K: Ord, F: Fn(&T) -> K + Sync>(&mut self, f: F) { self.as_parallel_slice_mut().sort_by_key(|a| f(a)) }
+        fn par_sort_unstable_by_key<K: Ord, F: Fn(&T) -> K + Sync>(&mut self, f: F) { self.as_parallel_slice_mut().sort_unstable_by_key(|a| f(a)) }
+    }
+    impl<T: Send> ParallelSliceMut<T> for [T] {
+        fn as_parallel_slice_mut(&mut self) -> &mut [T] { self }
+    }
+
+    /// `iter.par_bridge()`: the items are pulled eagerly, then handed out like a Vec
+    pub trait ParallelBridge: Sized + Iterator where Self::Item: Send {
+        fn par_bridge(self) -> VecIter<Self::Item> { self.collect::<Vec<_>>().into_par_iter() }
+    }
+    impl<I: Iterator> ParallelBridge for I where I::Item: Send {}
+
+    // collecting into the other std containers
+    impl<T: Send + Ord> FromParallelIterator<T> for std::collections::BTreeSet<T> {
+        fn from_par_iter<P: ParallelIterator<Item = T>>(p: P) -> Self { run_ordered(p).into_iter().flatten().collect() }
+    }
+    impl<K: Send + Ord, V: Send> FromParallelIterator<(K, V)> for std::collections::BTreeMap<K, V> {
+        fn from_par_iter<P: ParallelIterator<Item = (K, V)>>(p: P) -> Self { run_ordered(p).into_iter().flatten().collect() }
+    }
+    impl<T: Send> FromParallelIterator<T> for std::collections::VecDeque<T> {
+        fn from_par_iter<P: ParallelIterator<Item = T>>(p: P) -> Self { run_ordered(p).into_iter().flatten().collect() }
+    }
+    impl FromParallelIterator<char> for String {
+        fn from_par_iter<P: ParallelIterator<Item = char>>(p: P) -> Self { run_ordered(p).into_iter().flatten().collect() }
+    }
+    impl FromParallelIterator<()> for () {
+        fn from_par_iter<P: ParallelIterator<Item = ()>>(p: P) -> Self { run_ordered(p); }
+    }
+    impl<T: Send, E: Send, C: FromIterator<T>> FromParallelIterator<Result<T, E>> for Result<C, E> {
+        fn from_par_iter<P: ParallelIterator<Item = Result<T, E>>>(p: P) -> Self { run_ordered(p).into_iter().flatten().collect() }
+    }
+    impl<T: Send, C: FromIterator<T>> FromParallelIterator<Option<T>> for Option<C> {
+        fn from_par_iter<P: ParallelIterator<Item = Option<T>>>(p: P) -> Self { run_ordered(p).into_iter().flatten().collect() }
     }
 }
